@@ -149,6 +149,16 @@ class _Tx(ast.NodeTransformer):
         self.generic_visit(node)
         return node
 
+    def visit_SetComp(self, node):
+        self.generic_visit(node)
+        gen = ast.GeneratorExp(elt=node.elt, generators=node.generators)
+        return ast.copy_location(ast.Call(func=ast.Name(id='_zx_setcomp_', ctx=ast.Load()), args=[gen], keywords=[]), node)
+
+    def visit_DictComp(self, node):
+        self.generic_visit(node)
+        gen = ast.GeneratorExp(elt=ast.Tuple(elts=[node.key, node.value], ctx=ast.Load()), generators=node.generators)
+        return ast.copy_location(ast.Call(func=ast.Name(id='_zx_dictcomp_', ctx=ast.Load()), args=[gen], keywords=[]), node)
+
     def visit_BinOp(self, node):
         self.generic_visit(node)
         if isinstance(node.op, ast.Mod):
@@ -357,7 +367,24 @@ def zx_mod(a, b):
     return a % b
 
 
-RUNTIME = {'_zx_cm_': zx_cm, '_zx_in_': zx_in, '_zx_not_': zx_not, '_zx_gi_': zx_gi, '_zx_mod_': zx_mod, '_zx_si_': zx_si, '_zx_di_': zx_di}
+def zx_setcomp(gen):
+    out = set()
+    for e in gen:
+        if is_sym(e) or _tainted(out):
+            zx_cm(out, 'add', e)
+        else:
+            out.add(e)
+    return out
+
+
+def zx_dictcomp(gen):
+    out = {}
+    for k, v in gen:
+        zx_si(out, k, v)
+    return out
+
+
+RUNTIME = {'_zx_setcomp_': zx_setcomp, '_zx_dictcomp_': zx_dictcomp, '_zx_cm_': zx_cm, '_zx_in_': zx_in, '_zx_not_': zx_not, '_zx_gi_': zx_gi, '_zx_mod_': zx_mod, '_zx_si_': zx_si, '_zx_di_': zx_di}
 
 
 # ------------------------------------------------------------------ loader
